@@ -133,7 +133,9 @@ namespace
                 w.send(Http::Code::Ok, "ok");
                 return;
             }
-            if (res == "/big")
+            if (res == "/huge")
+                w.send(Http::Code::Ok, std::string(8 * 1024 * 1024, 'h')); // more than the kernel's send buffer can take (tcp_wmem max 4 MiB)
+            else if (res == "/big")
                 w.send(Http::Code::Ok, std::string(400 * 1024, 'b'));
             else
                 w.send(Http::Code::Ok, "ok");
@@ -149,9 +151,11 @@ namespace
                GoneBeforeAsyncAnswer,
                TimedAnswered,  // k requests whose handler arms a response time-out and answers in time
                TimedParked,    // one request whose handler arms a 100 ms response time-out and never answers: 408 expected
-               AcrossSweep };  // request, pause, (one connection of the round asks for /sweep), request again, close
+               AcrossSweep,    // request, pause, (one connection of the round asks for /sweep), request again, close
+               StuckThenSilent }; // asks for a large response into a 4 KiB window, reads nothing, stays silent past the idle time-out, then closes
     const char* END_NAMES[] = { "close", "shutdown(WR)+read-to-EOF", "RST", "abort-with-response-pending", "silence-until-timeout", "gone-before-async-answer",
-                                "response-timeout-armed-and-answered", "response-timeout-expires(writer parked)", "open-across-sweep-of-parked-writers" };
+                                "response-timeout-armed-and-answered", "response-timeout-expires(writer parked)", "open-across-sweep-of-parked-writers",
+                                "large-response-stuck+silent-past-idle-timeout" };
 
     struct ConnScript
     {
@@ -172,7 +176,7 @@ namespace
 
     void run_conn(ConnScript& s, uint16_t port)
     {
-        int fd = net::connect_loopback(port, s.end == AbortBigResponse ? 4096 : 0);
+        int fd = net::connect_loopback(port, (s.end == AbortBigResponse || s.end == StuckThenSilent) ? 4096 : 0);
         if (fd < 0)
         {
             s.fail = "connect failed";
@@ -247,6 +251,16 @@ namespace
                 net::sleep_ms(50);
             if (s.fail.empty() && (!net::send_all(fd, REQ) || !net::read_message(fd, carry, true, m, 5000, err) || m.status != 200))
                 s.fail = "a connection that was open and idle while parked response writers were destroyed is no longer served: " + err;
+            ::close(fd);
+            break;
+        }
+        case StuckThenSilent: {
+            // the response (8 MiB) is more than the kernel's send buffer takes while nobody reads; the request is
+            // complete, so after the idle time-out (1 s) the connection counts as idle and a 408 is queued
+            // BEHIND the stuck response, where it stays: several idle scans (every 500 ms) pass before the
+            // client finally closes.  The handler must be told of the disconnection once.
+            net::send_all(fd, "GET /huge HTTP/1.1\r\nHost: x\r\n\r\n");
+            net::sleep_ms(2700);
             ::close(fd);
             break;
         }
@@ -378,6 +392,21 @@ namespace verif
                 desc += std::to_string(ra.size()) + "x response-timeout-expires(writer parked) | " + std::to_string(rb.size()) + "x open-across-sweep | ";
             }
         }
+        {
+            // decoded last of all
+            unsigned ns = c.pick(3);
+            if (ns && timeouts)
+            {
+                std::vector<ConnScript> r(ns);
+                for (auto& s : r)
+                    s.end = StuckThenSilent;
+                kinds.insert(int(StuckThenSilent));
+                plan.push_back(r);
+                ++rounds;
+                inflight = true;
+                desc += std::to_string(ns) + "x large-response-stuck+silent-past-idle-timeout | ";
+            }
+        }
         std::string cfg = "workers=" + std::to_string(workers) + (timeouts ? " timeouts=1s" : "") + " rounds=" + std::to_string(rounds);
         rep.label(timeouts ? "with-idle-timeouts" : "no-timeouts");
         for (int k : kinds)
@@ -445,7 +474,9 @@ namespace verif
                 std::lock_guard<std::mutex> g(sh->m);
                 if (!ok)
                 {
-                    std::string sig = size_t(sh->total_connects) != expected_peers ? "C08/timing/connect-callbacks-missing" : "C08/timing/disconnect-never-told";
+                    std::string sig = size_t(sh->total_connects) != expected_peers ? "C08/timing/connect-callbacks-missing"
+                        : sh->total_disconnects > sh->total_connects                ? "C08/disconnect-told-twice" // more notifications than connections: not a matter of waiting longer
+                                                                                      : "C08/timing/disconnect-never-told";
                     verdict         = Verdict::fail(sig, cfg + " after round " + std::to_string(r) + ": " + std::to_string(sh->total_connects) + " onConnection and " + std::to_string(sh->total_disconnects)
                                                             + " onDisconnection calls for " + std::to_string(expected_peers) + " connections that are all gone :: " + desc);
                     break;
